@@ -2,6 +2,12 @@ package main
 
 import (
 	"bytes"
+	crand "crypto/rand"
+	stdx509 "crypto/x509"
+	"crypto/x509/pkix"
+	"encoding/asn1"
+	"math/big"
+	"time"
 	"encoding/base64"
 	"encoding/json"
 	"encoding/pem"
@@ -412,6 +418,87 @@ func init() {
 				}
 			}
 		}
+		// size ladder: objects of tens of kilobytes up to several megabytes (a revocation list of a large CA, a certificate
+		// carrying a large extension) in every encoding, from a file and from standard input
+		{
+			type big struct {
+				what string
+				der  []byte
+				pemT string
+			}
+			var bigs []big
+			k := getKit()
+			extSizes := []int{70_000, 1_100_000}
+			crlSizes := []int{3000, 52_000}
+			if tier() == "thorough" {
+				extSizes = append(extSizes, 3_000_000, 17_000_000)
+				crlSizes = append(crlSizes, 120_000)
+			}
+			for _, n := range extSizes {
+				t := leafTemplate()
+				t.ExtraExtensions = append(t.ExtraExtensions, pkix.Extension{Id: asn1.ObjectIdentifier{1, 3, 6, 1, 4, 1, 55555, 9, 9}, Value: encTLV(0x04, bytes.Repeat([]byte{0x5a}, n))})
+				if der, _, err := issue(t, nil); err == nil {
+					bigs = append(bigs, big{fmt.Sprintf("certificate with a %d octet extension", n), der, "CERTIFICATE"})
+				}
+			}
+			for _, n := range crlSizes {
+				tmpl := &stdx509.RevocationList{Number: big2(77), ThisUpdate: time.Date(2024, 2, 1, 0, 0, 0, 0, time.UTC), NextUpdate: time.Date(2024, 2, 5, 0, 0, 0, 0, time.UTC)}
+				for j := 0; j < n; j++ {
+					tmpl.RevokedCertificateEntries = append(tmpl.RevokedCertificateEntries, stdx509.RevocationListEntry{SerialNumber: big2(int64(1000000 + j*7)), RevocationTime: tmpl.ThisUpdate.Add(-time.Duration(j%5000) * time.Minute)})
+				}
+				if der, err := stdx509.CreateRevocationList(crand.Reader, tmpl, k.caCert, k.caKey); err == nil {
+					bigs = append(bigs, big{fmt.Sprintf("revocation list with %d entries", n), der, "X509 CRL"})
+				}
+			}
+			sizes := []int{}
+			for _, b := range bigs {
+				var want string
+				if b.pemT == "CERTIFICATE" {
+					c, err := x509.ParseCertificate(b.der)
+					if err != nil {
+						continue
+					}
+					want = libJSON(zlint.LintCertificate(c))
+				} else {
+					c, err := x509.ParseRevocationList(b.der)
+					if err != nil {
+						continue
+					}
+					want = libJSON(zlint.LintRevocationList(c))
+				}
+				sizes = append(sizes, len(b.der))
+				pemBytes := pem.EncodeToMemory(&pem.Block{Type: b.pemT, Bytes: b.der})
+				type enc struct {
+					name  string
+					argv  []string
+					file  string
+					data  []byte
+					stdin bool
+				}
+				encs := []enc{{"pem-file", nil, "big.pem", pemBytes, false}, {"pem-stdin", []string{"-format", "pem"}, "", pemBytes, true}}
+				if b.pemT == "CERTIFICATE" {
+					b64 := []byte(base64.StdEncoding.EncodeToString(b.der))
+					encs = append(encs, enc{"der-file", nil, "big.der", b.der, false}, enc{"der-stdin", []string{"-format", "der"}, "", b.der, true}, enc{"b64-file", []string{"-format", "base64"}, "big.b64", b64, false})
+				}
+				for _, e := range encs {
+					var r cliRun
+					if e.stdin {
+						r = runCLI(bin, e.argv, e.data)
+					} else {
+						pth := filepath.Join(tmp, e.file)
+						os.WriteFile(pth, e.data, 0o600)
+						r = runCLI(bin, append(append([]string{}, e.argv...), pth), nil)
+						os.Remove(pth)
+					}
+					invocations++
+					if ok, why := equalResults(strings.TrimSuffix(r.stdout, "\n"), want, map[string]bool{}); r.code != 0 || !ok {
+						out.Violate("C15|large-input:"+e.name, fmt.Sprintf("CLI (exit %d, stderr %.150q) on a %s (%d octets of DER, given as %s) does not print what the library computes: %s", r.code, strings.TrimSpace(r.stderr), b.what, len(b.der), e.name, why),
+							map[string]interface{}{"object": b.what, "der_octets": len(b.der), "encoding": e.name}, nil, nil)
+					}
+				}
+			}
+			out.Data["large_input_der_octets"] = sizes
+		}
 		// summary tables when the only findings are fatal (a configuration the lint cannot read), under a selection that
 		// keeps nothing else: the counts are the counts of the library's results
 		{
@@ -640,3 +727,5 @@ func wrapLines(s string, n int) string {
 	b.WriteString("\n")
 	return b.String()
 }
+
+func big2(n int64) *big.Int { return big.NewInt(n) }
